@@ -25,7 +25,21 @@ const (
 	kObj
 )
 
-var k13Kind = []int{kNil, kBool, kBool, kInt, kInt, kFloat, kFloat, kStr, kStr, kList, kList, kObj, kObj}
+var k13Kind = []int{kNil, kBool, kBool, kInt, kInt, kFloat, kFloat, kStr, kStr, kList, kList, kObj, kObj, kList, kObj}
+
+// k15 = k13 plus a derived list and a derived object (user types embedding List/Object): they are Lists /
+// Objects for every typed view
+func k15() []interface{} { return append(k13(), newDL(3), newDO("d", 4)) }
+
+var k15Names = append(append([]string{}, k13Names...), "derivedL[3]", "derivedO{d:4}")
+
+func names15(dg []int) []string {
+	out := make([]string, len(dg))
+	for i, d := range dg {
+		out[i] = k15Names[d]
+	}
+	return out
+}
 var kindNames = []string{"Nil", "Bool", "Int", "Float", "String", "List", "Object"}
 
 // tagOf is the pure function used in Map callbacks: containers are returned as they are
@@ -79,13 +93,30 @@ func toAny[T any](s []T) []interface{} {
 
 // c14List runs every typed/untyped view on one list. Returns the first discrepancy.
 func c14List(dg []int) (msg, sig string) {
-	alpha := k13()
+	for _, h := range []int{0, 2, 6} {
+		if len(dg) == 0 && h != 0 {
+			continue
+		}
+		if m, s := c14ListHist(dg, h); m != "" {
+			return m + " [list built by: " + c17HistNames[h] + "]", s
+		}
+	}
+	return "", ""
+}
+
+func c14ListHist(dg []int, h int) (msg, sig string) {
+	alpha := k15()
 	vals := make([]interface{}, len(dg))
 	for i, d := range dg {
 		vals[i] = alpha[d]
 	}
-	l := at.NewList(vals...)
-	names := namesOf(dg)
+	var l at.List
+	if len(vals) == 0 {
+		l = at.NewList()
+	} else {
+		l = buildHist(h, vals, "pad")
+	}
+	names := names15(dg)
 	sub := func(k int) []interface{} {
 		var out []interface{}
 		for i, d := range dg {
@@ -296,14 +327,14 @@ func pairKey(k string, v interface{}) string {
 func sortedStrings(s []string) []string { sort.Strings(s); return s }
 
 func c14Object(keys []string, dg []int) (msg, sig string) {
-	alpha := k13()
+	alpha := k15()
 	o := at.NewObject()
 	vals := map[string]interface{}{}
 	for i, k := range keys {
 		o.Set(k, alpha[dg[i]])
 		vals[k] = alpha[dg[i]]
 	}
-	desc := fmt.Sprint(keys, namesOf(dg))
+	desc := fmt.Sprint(keys, names15(dg))
 	kindOfKey := map[string]int{}
 	for i, k := range keys {
 		kindOfKey[k] = k13Kind[dg[i]]
@@ -437,11 +468,11 @@ func init() {
 var c14Pattern = regexp.MustCompile(`^(ForEach|Map|Filter|Reduce|All)[A-Z]?|Slice$`)
 
 func runC14(c *ev.Ctx) {
-	maxLen, maxKeys := 5, 4
+	maxLen, maxKeys := 4, 3
 	if c.Thorough() {
-		maxLen, maxKeys = 6, 4
+		maxLen, maxKeys = 5, 4
 	}
-	c.Rule(fmt.Sprintf("every list of length 0..%d over the 13-value kinds alphabet (nil, 2 bools, 2 ints, 2 floats incl. whole-valued 1.0, 2 strings, 2 lists, 2 objects): all 6 typed slices, 8 ForEach variants, 8 Map variants (callback argument log + result), 6 Filter variants x 4 predicates (2 stateful), 4 Reduce variants with non-commutative folds, 7 All* predicates; every object with 0..%d keys from {a,b,c,d} over the same alphabet: ForEach/ForEachValue/6 typed ForEach as multisets, Map/MapValues/6 typed Map results per key. Non-trivial = distinct container holding at least two elements of one kind separated or accompanied by another kind, or any container of >= 3 elements.", maxLen, maxKeys))
+	c.Rule(fmt.Sprintf("every list of length 0..%d over the 15-value kinds alphabet (nil, 2 bools, 2 ints, 2 floats incl. whole-valued 1.0, 2 strings, 2 lists, 2 objects, a derived list and a derived object = user types embedding List/Object) through 3 construction histories: all 6 typed slices, 8 ForEach variants, 8 Map variants (callback argument log + result), 6 Filter variants x 4 predicates (2 stateful), 4 Reduce variants with non-commutative folds, 7 All* predicates; every object with 0..%d keys from {a,b,c,d} over the same alphabet: ForEach/ForEachValue/6 typed ForEach as multisets, Map/MapValues/6 typed Map results per key. Non-trivial = distinct container holding at least two elements of one kind separated or accompanied by another kind, or any container of >= 3 elements.", maxLen, maxKeys))
 	c.Assume("ForEachAsync/MapAsync are covered by C15", "callbacks are drawn from a finite menu (logging identity, tagging map, 4 predicates, non-commutative folds)")
 	// API discovery: typed-view-like methods without a driver are listed, not alarmed
 	var uncovered []string
@@ -456,20 +487,20 @@ func runC14(c *ev.Ctx) {
 	sort.Strings(uncovered)
 	c.Set("view_methods_without_driver", uncovered)
 	stop := func() bool { return c.Expired() || c.TooMany() }
-	total, offs := powSum(13, 0, maxLen)
+	total, offs := powSum(15, 0, maxLen)
 	done := par.Range(c.Workers, total, 1024, stop, func(w int, idx int64) {
 		n, rest := decodeLen(idx, 0, offs)
-		dg := digits(rest, 13, n, nil)
+		dg := digits(rest, 15, n, nil)
 		c.Eval(1)
 		if n >= 3 {
 			c.Nontrivial(fmt.Sprint("l", dg))
 		}
 		if idx%20011 == 3 {
-			c.Sample(map[string]interface{}{"container": "list", "elements": namesOf(dg)})
+			c.Sample(map[string]interface{}{"container": "list", "elements": names15(dg)})
 		}
 		if msg, sig := c14List(dg); msg != "" {
 			dg2 := append([]int{}, dg...)
-			c.Violate(ev.Violation{Sig: sig, Msg: msg, Witness: map[string]interface{}{"list": namesOf(dg2)}}, func() string { _, s := c14List(dg2); return s })
+			c.Violate(ev.Violation{Sig: sig, Msg: msg, Witness: map[string]interface{}{"list": names15(dg2)}}, func() string { _, s := c14List(dg2); return s })
 		}
 	})
 	if done < total {
@@ -490,21 +521,21 @@ func runC14(c *ev.Ctx) {
 			}
 		}
 		rec(0, nil)
-		tot, _ := powSum(13, nk, nk)
+		tot, _ := powSum(15, nk, nk)
 		for _, ks := range subsets {
 			ks := ks
 			par.Range(c.Workers, tot, 512, stop, func(w int, idx int64) {
-				dg := digits(idx, 13, nk, nil)
+				dg := digits(idx, 15, nk, nil)
 				c.Eval(1)
 				if nk >= 2 {
 					c.Nontrivial(fmt.Sprint("o", ks, dg))
 				}
 				if idx%5003 == 3 {
-					c.Sample(map[string]interface{}{"container": "object", "keys": ks, "values": namesOf(dg)})
+					c.Sample(map[string]interface{}{"container": "object", "keys": ks, "values": names15(dg)})
 				}
 				if msg, sig := c14Object(ks, dg); msg != "" {
 					dg2 := append([]int{}, dg...)
-					c.Violate(ev.Violation{Sig: sig, Msg: msg, Witness: map[string]interface{}{"keys": ks, "values": namesOf(dg2)}}, func() string { _, s := c14Object(ks, dg2); return s })
+					c.Violate(ev.Violation{Sig: sig, Msg: msg, Witness: map[string]interface{}{"keys": ks, "values": names15(dg2)}}, func() string { _, s := c14Object(ks, dg2); return s })
 				}
 			})
 		}
